@@ -31,7 +31,19 @@ From Coq Require Import List NArith Bool Arith.
 From SV Require Import Bytes Lexer Text TextFacts.
 Import ListNotations.
 Local Open Scope nat_scope.
-From SV Require Import Tables ArgCheck ArgSpec Machine Printer CompleteFacts CompleteTree RenderFacts PrintTree GenTables Ops Build BuildFacts BuildSet Load LoadFacts BuildHistory.
+From SV Require Import Tables ArgCheck ArgSpec Machine Printer CompleteFacts CompleteTree RenderFacts PrintTree GenTables Ops Build BuildFacts BuildSet Load LoadFacts BuildHistory FactoryConsts ConstFacts.
+
+(* the loader's `if false` test uses the two classes __isdisabled tests in the source *)
+Theorem C11_disabled_test :
+  [k_if; k_false] = gen_disabled_classes.
+Proof. exact ConstFacts.disabled_classes_ok. Qed.
+Print Assumptions C11_disabled_test.
+
+(* the default name of a loaded filter is the format string of from_parser_result *)
+Theorem C11_default_name :
+  forall cpt : N, unnamed cpt = gen_unnamed_prefix ++ dec cpt.
+Proof. exact ConstFacts.unnamed_prefix_ok. Qed.
+Print Assumptions C11_default_name.
 
 (* for every set reached by a history of editing operations with documented definitions: the saved text is accepted and from_parser_result returns the same requirements and the filters in order with the same names, descriptions and enabled flags *)
 Theorem C11_history_reload :
